@@ -27,6 +27,18 @@ impl TlsRecordsParser {
         self.current_record_type.is_some()
     }
 
+    /// Verification hook: contents of the defragmentation buffer
+    #[cfg(tls_parser_verif)]
+    pub fn verif_defrag_buffer(&self) -> &[u8] {
+        &self.record_defrag_buffer
+    }
+
+    /// Verification hook: record type of the defragmentation in progress (if any)
+    #[cfg(tls_parser_verif)]
+    pub fn verif_current_type(&self) -> Option<TlsRecordType> {
+        self.current_record_type
+    }
+
     /// Attempt to parse all messages from a single record
     ///
     /// Record types `ChangeCipherSpec` and `Alert` cannot be fragmented.
